@@ -133,6 +133,22 @@ def grant_case():
                     ctx.prove(t.session_id == b"H" * 19 + b"\x01", "session-identifier-is-the-first-exchange-hash")
             else:
                 ctx.reach("not-granted")
+                if method == "publickey" and result == AUTH_PARTIALLY_SUCCESSFUL:
+                    # "partial success" is an answer about the proof presented too: it is only given for a verified
+                    # signature (a forged or replayed one gets a plain failure, whatever the application thinks of the key)
+                    from paramiko.common import MSG_USERAUTH_FAILURE
+                    partial = False
+                    for mm in t.sent:
+                        bb = mm.asbytes()
+                        if len(bb) and bb[0] == MSG_USERAUTH_FAILURE:
+                            r_ = Message(bb[1:])
+                            r_.get_list()
+                            partial = partial or r_.get_boolean()
+                    if partial:
+                        ctx.prove(verdict and len(A.StubKey.calls) == 1 and label == A.ALG,
+                                  "partial-success-for-a-public-key=>its-signature-was-checked-and-valid")
+                    else:
+                        ctx.reach("no-partial-success")
             if method == "publickey-probe":
                 ctx.prove(not granted, "probe-or-password-change-never-authenticates")
                 ctx.prove(len(A.StubKey.calls) == 0, "probe-checks-no-signature")
